@@ -394,10 +394,34 @@ func genMap(t *rapid.T, depth int, yamlSafe bool, noMergeKey bool) (*ordered.Map
 		s := str("v")
 		return s, gt.StrN(s)
 	}
-	for i := 0; i < n; i++ {
-		if k, ok := key("k"); ok {
+	if rapid.IntRange(0, 3).Draw(t, "fromitems") == 0 {
+		// built in one go from a list of items in which a key may occur more than once (defaults followed
+		// by overrides): the first position and the last value are kept, as if set one after the other
+		var items []ordered.TupleSA
+		for i := 0; i < n; i++ {
+			k, ok := key("k")
+			if !ok {
+				continue
+			}
+			if len(items) > 0 && rapid.IntRange(0, 3).Draw(t, "repeatkey") == 0 {
+				k = items[rapid.IntRange(0, len(items)-1).Draw(t, "repeatwhich")].Key
+				recMap.Class("from-items-with-repeated-key")
+			}
 			v, vn := val(depth)
-			set(k, v, vn)
+			items = append(items, ordered.TupleSA{Key: k, Value: v})
+			if i := find(k); i >= 0 {
+				model[i].v = vn
+			} else {
+				model = append(model, pair{k, vn})
+			}
+		}
+		m = ordered.MapFromItems(items...)
+	} else {
+		for i := 0; i < n; i++ {
+			if k, ok := key("k"); ok {
+				v, vn := val(depth)
+				set(k, v, vn)
+			}
 		}
 	}
 	// a history on top: deletions below and across the compaction threshold, renames onto absent,
